@@ -505,3 +505,58 @@ func rHelperArity(c *Ctx, plugins ...string) {
 		}
 	}
 }
+
+// rConstIndex: a constant index into a slice-typed parameter (list[0], listOfLists[0]) must be dominated by a test that
+// the slice is non-empty; otherwise the generated function panics on an empty (non-nil) argument.
+func rConstIndex(c *Ctx, plugins ...string) {
+	for _, p := range plugins {
+		for _, rs := range c.acceptedResids(p) {
+			if rs.Err != nil {
+				continue
+			}
+			for _, fn := range rs.Funcs {
+				slices := map[string]bool{}
+				for _, f := range fn.Type.Params.List {
+					if at, ok := f.Type.(*ast.ArrayType); ok && at.Len == nil {
+						for _, n := range f.Names {
+							slices[n.Name] = true
+						}
+					}
+					if _, ok := f.Type.(*ast.Ellipsis); ok {
+						for _, n := range f.Names {
+							slices[n.Name] = true
+						}
+					}
+				}
+				if len(slices) == 0 {
+					continue
+				}
+				ok := true
+				w := &guardWalker{}
+				w.onExpr = func(e ast.Expr, f Facts, stack []ast.Node) {
+					ix, isIx := e.(*ast.IndexExpr)
+					if !isIx {
+						return
+					}
+					id, isId := ix.X.(*ast.Ident)
+					bl, isLit := ix.Index.(*ast.BasicLit)
+					if !isId || !isLit || !slices[id.Name] {
+						return
+					}
+					if f["nonempty:"+id.Name] {
+						return
+					}
+					ok = false
+					gf := c.Repo.funcAt(rs.Run.LinePos[rs.line(ix.Pos())-1])
+					c.Rep.fail(Finding{Rule: "R7", Key: fmt.Sprintf("R7|%s|%s|const-index-unguarded", p, gf), Where: []string{rs.where(c.Repo, ix)}, Plugin: p, Script: rs.Run.Script,
+						Msg:    fmt.Sprintf("plugin %s indexes the slice argument %s[%s] without a dominating test that it is non-empty: an empty (non-nil) argument makes the generated function panic", p, id.Name, bl.Value),
+						Detail: "residual:\n" + rs.Run.excerpt(40)})
+				}
+				w.block(fn.Body.List, Facts{})
+				if ok {
+					c.Rep.pass("R7")
+				}
+			}
+		}
+	}
+}
